@@ -89,6 +89,8 @@ def ref_value(dom: str, v) -> set[int]:
         return {v}
     if isinstance(v, str):
         return ref_str(dom, v)
+    if hasattr(v, '__next__'):
+        v = list(v)          # a one-shot iterator is an Iterable like any other: it denotes what its elements denote
     if isinstance(v, (list, tuple)):
         if not v:
             raise Reject('no values')
